@@ -17,7 +17,9 @@ CONSTANTS NClamps,      \* clamped points 1..NClamps; point NClamps+1 is unclamp
           NFollow,      \* points NClamps+2 .. NClamps+1+NFollow each follow clamp 1 through a link of their own
           NParams,      \* parameter values 0..NParams-1
           QMax,         \* quality values 0..QMax
-          MaxProbes
+          MaxProbes,
+          MaxIter,      \* IterationDriver.max_iterations
+          TolDen        \* IterationDriver.tolerance = 1 / TolDen (relative to the quality before the first iteration)
 
 Clamps == 1..NClamps
 Free == NClamps + 1
@@ -36,8 +38,10 @@ VARIABLES Q,        \* [PosVec -> 0..QMax] the quality function (environment, fi
           todo,     \* clamps left in this iteration
           nprobe, failed,
           qStart,   \* grid quality when optimize() started
-          mesh      \* positions of the mesh vertices (updated only by backport)
-vars == <<Q, Bad, pos, saved, pc, cur, todo, nprobe, failed, qStart, mesh>>
+          mesh,     \* positions of the mesh vertices (updated only by backport)
+          iters,    \* IterationDriver: iterations finished
+          qIter     \* IterationDriver: quality at the beginning of the current iteration
+vars == <<Q, Bad, pos, saved, pc, cur, todo, nprobe, failed, qStart, mesh, iters, qIter>>
 
 Vec(p) == [c \in Clamps |-> p[c]]
 Quality(p) == Q[Vec(p)]
@@ -49,6 +53,7 @@ Init == /\ Q \in [PosVec -> 0..QMax]
         /\ Bad \in SUBSET (PosVec \ {Vec(pos)})
         /\ saved = 0 /\ pc = "idle" /\ cur = 0 /\ todo = Clamps /\ nprobe = 0 /\ failed = FALSE
         /\ qStart = Quality(pos) /\ mesh = pos
+        /\ iters = 0 /\ qIter = Quality(pos)
 
 \* _get_sensitivity: probe around the current parameters, then restore
 Sense(c) == /\ pc = "idle" /\ c \in todo
@@ -57,13 +62,13 @@ Sense(c) == /\ pc = "idle" /\ c \in todo
 
 Start(c) == /\ pc = "idle" /\ c \in todo
             /\ cur' = c /\ saved' = pos[c] /\ pc' = "probing" /\ nprobe' = 0 /\ failed' = FALSE
-            /\ UNCHANGED <<Q, Bad, pos, todo, qStart, mesh>>
+            /\ UNCHANGED <<Q, Bad, pos, todo, qStart, mesh, iters, qIter>>
 
 Probe(v) == /\ pc = "probing" /\ nprobe < MaxProbes /\ ~failed
             /\ pos' = Move(pos, cur, v)
             /\ failed' = (Vec(pos') \in Bad)            \* the quality evaluation raised
             /\ nprobe' = nprobe + 1
-            /\ UNCHANGED <<Q, Bad, saved, pc, cur, todo, qStart, mesh>>
+            /\ UNCHANGED <<Q, Bad, saved, pc, cur, todo, qStart, mesh, iters, qIter>>
 
 \* the minimiser returned (or raised): accept if the grid quality improved, else roll back; skip on failure
 Finish == /\ pc = "probing"
@@ -73,11 +78,19 @@ Finish == /\ pc = "probing"
              ELSE IF Quality(pos) < before THEN pos' = pos                     \* Accept
                   ELSE pos' = Move(pos, cur, saved)                            \* Rollback
           /\ todo' = todo \ {cur} /\ pc' = "idle" /\ cur' = 0
-          /\ UNCHANGED <<Q, Bad, saved, nprobe, failed, qStart, mesh>>
+          /\ UNCHANGED <<Q, Bad, saved, nprobe, failed, qStart, mesh, iters, qIter>>
 
+\* IterationDriver.converged, evaluated after an iteration has ended: the iteration limit, or (with at least two iterations
+\* on record) a last improvement below tolerance * the quality before the first iteration; an improvement of exactly
+\* zero counts as "very small" (VSMALL), so it is below any tolerance
+Converged(n, qBegin, qEnd) ==
+    \/ n >= MaxIter
+    \/ n >= 2 /\ TolDen * (qBegin - qEnd) < qStart
 EndIteration == /\ pc = "idle" /\ todo = {}
-                /\ \/ todo' = Clamps /\ UNCHANGED <<pc, mesh>>                 \* another iteration
-                   \/ pc' = "done" /\ mesh' = pos /\ UNCHANGED todo            \* converged: backport
+                /\ iters' = iters + 1
+                /\ IF Converged(iters + 1, qIter, Quality(pos))
+                   THEN pc' = "done" /\ mesh' = pos /\ UNCHANGED <<todo, qIter>>           \* converged: backport
+                   ELSE todo' = Clamps /\ qIter' = Quality(pos) /\ UNCHANGED <<pc, mesh>>    \* another iteration
                 /\ UNCHANGED <<Q, Bad, pos, saved, cur, nprobe, failed, qStart>>
 
 Next == (\E c \in Clamps : Sense(c) \/ Start(c)) \/ (\E v \in Params : Probe(v)) \/ Finish \/ EndIteration
@@ -89,6 +102,11 @@ UnclampedStill == pos[Free] = 0
 FollowerLinked == pc = "idle" => \A f \in Followers : pos[f] = LinkOf(f, pos[1])
 NotHalfApplied == pc = "idle" => Vec(pos) \notin Bad
 BackportEqual == pc = "done" => mesh = pos
+\* the driver: never more than max_iterations, never fewer than two unless the limit is one, and it does end
+IterBound == iters <= MaxIter
+IterAtLeastTwo == pc = "done" => (iters >= 2 \/ iters = MaxIter)
+Terminates == <>(pc = "done")
+FairSpec == Spec /\ WF_vars(Next)
 StepMonotone == [][ (pc = "probing" /\ pc' = "idle") => Quality(pos') <= Quality(Move(pos, cur, saved)) ]_vars
 
 =============================================================================
